@@ -721,6 +721,10 @@ func keyStructRule(c *Ctx, rule string) {
 			n++
 			a := t.atoms()
 			recv := ap(e.Args[0])
+			if cp, ok := wholeCopyAt(t, e.Args[0], e.Seq); ok {
+				// a local holding a by-value copy of the decoded key element, unmodified since
+				recv = "&" + cp
+			}
 			inline := recv == "&EA.EncryptedKey" && a[`!(EA.EncryptedKey.CipherValue == "")`]
 			detached := recv == "&EA.DetEncryptedKey" && a[`EA.EncryptedKey.CipherValue == ""`]
 			if inline {
@@ -823,4 +827,36 @@ func freshTargetsInHandlers(c *Ctx, rule string, res *Result) {
 	}
 	c.count(rule+"/handler-decodes", n)
 	c.floor(rule+"/handler-decodes", 1)
+}
+
+// wholeCopyAt: v is a local allocation whose content at event seq is an unmodified by-value copy of a single source
+// (the last whole store into it, with no partial store afterwards); returns that source's access path.
+func wholeCopyAt(t *Terminal, v Val, seq int) (string, bool) {
+	a, ok := v.(*AllocV)
+	if !ok {
+		return "", false
+	}
+	src, found := "", false
+	for _, e := range t.St.events {
+		if e.Seq >= seq {
+			continue
+		}
+		switch e.Kind {
+		case EvStore:
+			switch {
+			case e.Addr.Key() == a.Key():
+				src, found = ap(e.Val), true
+			case rootOf(e.Addr).Key() == a.Key():
+				found = false
+			}
+		case EvCall, EvEnter:
+			// handed to a callee in between: it may have been written
+			for _, x := range e.Args {
+				if x != nil && mayPointTo(x.Type()) && rootOf(x).Key() == a.Key() {
+					found = false
+				}
+			}
+		}
+	}
+	return src, found
 }
